@@ -1,1 +1,68 @@
-(* placeholder *)
+(* C08 -- the import result does not depend on how and when captures arrive.
+   The reassemblers are abstracted by the stream lists W_1 ... W_n they produce in the successive
+   FromPcap calls; `chain [] steps` says each list EXTENDS its predecessor (what chronological arrival
+   gives an online, append-only assembler).  Proved for the id-reuse / classification / visibility logic
+   of FromPcap (Import.dump, Import.classify, reader stack); the extension property itself is proved for
+   no assembler here (UDP: one flow alone, see C05) and is what the correspondence runs check. *)
+From Pk Require Import Import ImportProofs ImportExamples.
+
+(* (2a) after any such sequence of imports a view shows under id j exactly the j-th assembled stream *)
+Theorem C08_batches_visible : forall steps id,
+  chain [] steps ->
+  newest (run_batches [] steps) id = nth_error (last_factory [] steps) (N.to_nat id).
+Proof. exact batches_visible. Qed.
+
+(* (2b) every partition into chronological batches shows the map of the one-shot import, same ids *)
+Theorem C08_batched_equals_oneshot : forall steps allfiles id,
+  chain [] steps ->
+  wf_factory (last_factory [] steps) -> extends allfiles [] (last_factory [] steps) ->
+  newest (run_batches [] steps) id = newest (run_batches [] [(allfiles, last_factory [] steps)]) id.
+Proof. exact batched_equals_oneshot. Qed.
+
+(* (2c) an id once assigned stays on the same connection *)
+Theorem C08_ids_stable : forall steps1 steps2 id s,
+  chain [] (steps1 ++ steps2) ->
+  newest (run_batches [] steps1) id = Some s ->
+  exists s', newest (run_batches [] (steps1 ++ steps2)) id = Some s' /\ first_source s' = first_source s.
+Proof. exact ids_stable. Qed.
+
+(* (2d) no connection has two visible ids *)
+Theorem C08_ids_unique : forall steps id1 id2 s1 s2,
+  chain [] steps -> wf_factory (last_factory [] steps) ->
+  newest (run_batches [] steps) id1 = Some s1 -> newest (run_batches [] steps) id2 = Some s2 ->
+  first_source s1 = first_source s2 -> id1 = id2.
+Proof. exact ids_unique. Qed.
+
+(* the hypotheses are satisfiable (a UDP flow continued in a second capture) *)
+Example C08_chain_example : extends [1] [s_p1] [s_p12] /\ wf_factory [s_p1] /\ wf_factory [s_p12] /\
+                            chain [] [([0], [s_p1]); ([1], [s_p12])].
+Proof. exact extends_example. Qed.
+
+(* (1) snapshots: only the CHOICE of the snapshot is proved (stored, not younger than the oldest new
+   packet, youngest such; none chosen only if none usable).  Transparency of the replay from a snapshot
+   is not proved -- it is checked by the correspondence runs (snapshot points every 1..30 packets and the
+   real interval), which found and led to the repair ca95540. *)
+Theorem C08_snapshot_choice_sound_partial : forall snaps oldest b,
+  best_snapshot snaps oldest None = Some b ->
+  In b snaps /\ sn_ts b <= oldest /\ (forall s, In s snaps -> sn_ts s <= oldest -> sn_ts s <= sn_ts b).
+Proof. exact snapshot_choice_sound. Qed.
+
+Theorem C08_snapshot_choice_complete_partial : forall snaps oldest,
+  best_snapshot snaps oldest None = None -> forall s, In s snaps -> oldest < sn_ts s.
+Proof. exact snapshot_choice_complete. Qed.
+
+(* (3) arbitrary arrival order: refuted on the faithful model; same witness on the code
+   (corpus/C08/kf-stale-id.json, known finding stale-id-after-bridging-capture) *)
+Theorem C08_arrival_order_independence_refuted :
+  exists (order oneshot : list (list N)),
+    concat order = [0; 2; 1] /\ concat oneshot = [0; 1; 2] /\
+    visible_payloads (snd (run3 false order)) =
+      [(0, [(false, [112; 49; 112; 50; 112; 51])]); (1, [(false, [112; 51])])] /\
+    visible_payloads (snd (run3 false oneshot)) = [(0, [(false, [112; 49; 112; 50; 112; 51])])].
+Proof. exact arrival_order_independence_refuted. Qed.
+
+(* chronological batches of the same captures agree with the one-shot import on the faithful model *)
+Example C08_chronological_example :
+  visible_payloads (snd (run3 false [[0]; [1]; [2]])) = visible_payloads (snd (run3 false [[0; 1; 2]])) /\
+  visible_payloads (snd (run3 false [[0; 1]; [2]])) = visible_payloads (snd (run3 false [[0; 1; 2]])).
+Proof. exact chronological_batches_example. Qed.
